@@ -4,14 +4,11 @@ import (
 	"fmt"
 	"os"
 	"runtime"
-	"sync/atomic"
 	"testing"
 	"time"
 
 	"verif/sim/sim"
 )
-
-var curRun atomic.Int64
 
 // TestMain starts the out-of-bubble watchdog: real time is used only to notice
 // a hang (a goroutine spinning in repo code never parks, so synctest.Wait never
@@ -46,8 +43,6 @@ func TestMain(m *testing.M) {
 	}()
 	os.Exit(m.Run())
 }
-
-var busy atomic.Bool
 
 func TestWorker(t *testing.T) {
 	if os.Getenv("VERIF_PROP") == "" {
